@@ -44,3 +44,90 @@ Example C14_gen_nonvacuous :
   RefinementContainer_get_new_objects Z (RefinementContainer_add Z (RefinementContainer_clear_new_objects Z c) [13; 14]) = [13; 14] /\
   RefinementContainer_get_new_objects Z (mk_RefCont Z [10; 11; 12] (-1)) = [12].
 Proof. split; [reflexivity|]. split; [reflexivity|]. split; reflexivity. Qed.
+
+(* ==================================================================================================================
+   Phase 7: resume = uninterrupted WITHOUT the idempotence hypothesis, for the driver whose evaluate step is built from the generated
+   marker functions:  evaluate (c, v) = (clear_new_objects c, fold acc_add (get_new_objects c) v);  refine and observe arbitrary.
+   (The conditional theorems of Props/C14.v stay as they are.)
+   ================================================================================================================== *)
+From Coq Require Import QArith Qcanon.
+From SG Require Import Base.QcUtil Model.Driver Proofs.DriverProofs Proofs.DriverSpec Proofs.DriverLegs Proofs.DriverCheckpoint Proofs.GenNewMarkerResume.
+
+(* re-evaluation after the clear is the identity: nothing is new, nothing is added, the objects are untouched *)
+Theorem C14_gen_reevaluation_is_identity : forall (A V : Type) (acc_add : V -> A -> V) s,
+  g_evaluate A V acc_add (g_evaluate A V acc_add s) = g_evaluate A V acc_add s.
+Proof. exact reevaluation_is_identity. Qed.
+Theorem C14_gen_reevaluation_adds_nothing : forall (A V : Type) (acc_add : V -> A -> V) s,
+  snd (g_evaluate A V acc_add (g_evaluate A V acc_add s)) = snd (g_evaluate A V acc_add s) /\
+  f_refinementObjects A (fst (g_evaluate A V acc_add (g_evaluate A V acc_add s))) = f_refinementObjects A (fst s) /\
+  RefinementContainer_get_new_objects A (fst (g_evaluate A V acc_add s)) = [].
+Proof. exact reevaluation_adds_nothing. Qed.
+
+(* UNCONDITIONAL: any split point *)
+Theorem C14_gen_resume_equals_uninterrupted :
+  forall (A V : Type) (acc_add : V -> A -> V) (refine : RefCont_t A * V -> RefCont_t A * V) (observe : RefCont_t A * V -> obs)
+         l1 l2 n m s s1 s2,
+  limits_grow l1 l2 ->
+  run _ (g_evaluate A V acc_add) refine observe l1 n s = Some s1 -> run _ (g_evaluate A V acc_add) refine observe l2 m s1 = Some s2 ->
+  exists k, (k <= n + m)%nat /\ run _ (g_evaluate A V acc_add) refine observe l2 k s = Some s2.
+Proof. exact gen_resume_equals_uninterrupted. Qed.
+Theorem C14_gen_uninterrupted_equals_resume :
+  forall (A V : Type) (acc_add : V -> A -> V) (refine : RefCont_t A * V -> RefCont_t A * V) (observe : RefCont_t A * V -> obs)
+         l1 l2 n m k s s1 s2 s2',
+  limits_grow l1 l2 ->
+  run _ (g_evaluate A V acc_add) refine observe l1 n s = Some s1 -> run _ (g_evaluate A V acc_add) refine observe l2 m s1 = Some s2 ->
+  run _ (g_evaluate A V acc_add) refine observe l2 k s = Some s2' -> s2' = s2.
+Proof. exact gen_uninterrupted_equals_resume. Qed.
+(* UNCONDITIONAL: any number of stop / continue legs *)
+Theorem C14_gen_resume_chain_equals_uninterrupted :
+  forall (A V : Type) (acc_add : V -> A -> V) (refine : RefCont_t A * V -> RefCont_t A * V) (observe : RefCont_t A * V -> obs)
+         lims lf nf s s1 s2,
+  all_grow_to lims lf -> run_chain _ (g_evaluate A V acc_add) refine observe lims s = Some s1 ->
+  run _ (g_evaluate A V acc_add) refine observe lf nf s1 = Some s2 -> lims <> [] ->
+  exists k, run _ (g_evaluate A V acc_add) refine observe lf k s = Some s2.
+Proof. exact gen_resume_chain_equals_uninterrupted. Qed.
+Theorem C14_gen_legs_grow_end_where_single_run_ends :
+  forall (A V : Type) (acc_add : V -> A -> V) (refine : RefCont_t A * V -> RefCont_t A * V) (observe : RefCont_t A * V -> obs)
+         legs lf s d s' d',
+  legs <> [] -> last (map fst legs) lf = lf -> all_growb (map fst legs) lf = true ->
+  run_legs _ (g_evaluate A V acc_add) refine observe legs s d = Some (s', d') ->
+  run _ (g_evaluate A V acc_add) refine observe lf (legs_fuel legs) s = Some s'.
+Proof. exact gen_legs_grow_end_where_single_run_ends. Qed.
+Theorem C14_gen_legs_follow_trajectory :
+  forall (A V : Type) (acc_add : V -> A -> V) (refine : RefCont_t A * V -> RefCont_t A * V) (observe : RefCont_t A * V -> obs)
+         legs s d s' d' N,
+  legs <> [] -> run_legs _ (g_evaluate A V acc_add) refine observe legs s d = Some (s', d') -> (legs_fuel legs <= N)%nat ->
+  exists p, legs_on_stream (map fst legs) (traj _ (g_evaluate A V acc_add) refine observe N s) d = Some (p, d') /\
+            s' = state_at _ (g_evaluate A V acc_add) refine p s.
+Proof. exact gen_legs_follow_trajectory. Qed.
+Theorem C14_gen_checkpoint_copies_end_where_single_runs_end :
+  forall (A V : Type) (acc_add : V -> A -> V) (refine : RefCont_t A * V -> RefCont_t A * V) (observe : RefCont_t A * V -> obs)
+         prefix s d c pre post store lf s_i d_i,
+  run_legs _ (g_evaluate A V acc_add) refine observe prefix s d = Some c ->
+  let i := length (ck_exec _ (g_evaluate A V acc_add) refine observe c pre store) in
+  let mine := legs_of i post in
+  nth_error (ck_exec _ (g_evaluate A V acc_add) refine observe c (pre ++ OpRestore :: post) store) i = Some (Some (s_i, d_i)) ->
+  mine <> [] -> last (map fst (prefix ++ mine)) lf = lf -> all_growb (map fst (prefix ++ mine)) lf = true ->
+  run _ (g_evaluate A V acc_add) refine observe lf (legs_fuel (prefix ++ mine)) s = Some s_i.
+Proof. exact gen_checkpoint_copies_end_where_single_runs_end. Qed.
+Print Assumptions C14_gen_resume_chain_equals_uninterrupted.
+Print Assumptions C14_gen_checkpoint_copies_end_where_single_runs_end.
+
+(* the clear is NECESSARY: with the marker left where it is (the code before repair 0b63da8) stop-and-continue ends elsewhere *)
+Theorem C14_gen_noclear_resume_refuted :
+  let ev := g_evaluate_noclear Z Z Z.add in
+  let l1 := mkLimits (Q2Qc (-1 # 1)) 1 (Some 3) in
+  let l2 := mkLimits (Q2Qc (-1 # 1)) 1 (Some 7) in
+  let s0 := (mk_RefCont Z [5] 0, 0) in
+  limits_grow l1 l2 /\
+  exists s1 s2 s2', run _ ev w_refine w_observe l1 9 s0 = Some s1 /\ run _ ev w_refine w_observe l2 9 s1 = Some s2 /\
+                    run _ ev w_refine w_observe l2 9 s0 = Some s2' /\ snd s2 = 10 /\ snd s2' = 8.
+Proof. exact noclear_resume_refuted. Qed.
+Example C14_gen_resume_nonvacuous :
+  let ev := g_evaluate Z Z Z.add in
+  let l1 := mkLimits (Q2Qc (-1 # 1)) 1 (Some 3) in
+  let l2 := mkLimits (Q2Qc (-1 # 1)) 1 (Some 7) in
+  let s0 := (mk_RefCont Z [5] 0, 0) in
+  exists s1 s2, run _ ev w_refine w_observe l1 9 s0 = Some s1 /\ snd s1 = 5 /\ run _ ev w_refine w_observe l2 9 s1 = Some s2 /\
+                run _ ev w_refine w_observe l2 9 s0 = Some s2 /\ snd s2 = 8.
+Proof. exact gen_resume_nonvacuous. Qed.
